@@ -244,7 +244,7 @@ pub fn walk_pdus(frame: &[u8]) -> Option<Vec<(usize, u8, u8, u16, u16, usize, bo
 }
 
 /// The segment's answer to a transmitted frame, computed from the frame's own address fields.
-fn make_response(tx: &[u8]) -> Option<Vec<u8>> {
+pub fn make_response(tx: &[u8]) -> Option<Vec<u8>> {
     let pdus = walk_pdus(tx)?;
     let mut r = tx.to_vec();
     r[6] = 0x12; // first SubDevice sets the U/L bit of the source MAC
@@ -344,7 +344,7 @@ fn w<R>(f: impl FnOnce(&mut World) -> R) -> R {
     WORLD.with(|w| f(w.borrow_mut().as_mut().expect("world")))
 }
 
-pub struct WakeFlag(AtomicBool);
+pub struct WakeFlag(pub AtomicBool);
 
 impl Wake for WakeFlag {
     fn wake(self: Arc<Self>) {
@@ -483,7 +483,7 @@ pub struct World {
     tx_panics: usize,
 }
 
-fn st_name(s: u8) -> &'static str {
+pub fn st_name(s: u8) -> &'static str {
     match s {
         0 => "None",
         1 => "Created",
@@ -528,14 +528,14 @@ impl World {
 // Storage dispatch (const generics)
 // ---------------------------------------------------------------------------------------------
 
-enum Sto {
+pub enum Sto {
     N1(*mut PduStorage<1, DATA>),
     N2(*mut PduStorage<2, DATA>),
     N4(*mut PduStorage<4, DATA>),
 }
 
 impl Sto {
-    fn new(n: usize) -> Self {
+    pub fn new(n: usize) -> Self {
         match n {
             1 => Sto::N1(Box::into_raw(Box::new(PduStorage::new()))),
             2 => Sto::N2(Box::into_raw(Box::new(PduStorage::new()))),
@@ -544,7 +544,7 @@ impl Sto {
         }
     }
 
-    fn split(&self) -> (PduTx<'static>, PduRx<'static>, PduLoop<'static>) {
+    pub fn split(&self) -> (PduTx<'static>, PduRx<'static>, PduLoop<'static>) {
         unsafe {
             match self {
                 Sto::N1(p) => (&**p).try_split().unwrap(),
@@ -554,7 +554,7 @@ impl Sto {
         }
     }
 
-    unsafe fn free(self) {
+    pub unsafe fn free(self) {
         unsafe {
             match self {
                 Sto::N1(p) => drop(Box::from_raw(p)),
@@ -1394,7 +1394,7 @@ pub fn run_e1(cfg: &E1Cfg, ctx: &mut Ctx) -> RunResult {
     result
 }
 
-fn panic_msg(p: &Box<dyn std::any::Any + Send>) -> String {
+pub fn panic_msg(p: &Box<dyn std::any::Any + Send>) -> String {
     if let Some(s) = p.downcast_ref::<&str>() {
         s.to_string()
     } else if let Some(s) = p.downcast_ref::<String>() {
